@@ -63,11 +63,11 @@ func (r *verifRecorder) OnCompleted(ctx *base.EntryContext) {
 
 type verifLive struct {
 	uncounted bool // passed after a prepare-slot panic: the statistic slots never saw it
-	e      *base.SentinelEntry
-	res    int
-	batch  uint32
-	exited bool
-	err    error
+	e         *base.SentinelEntry
+	res       int
+	batch     uint32
+	exited    bool
+	err       error
 }
 
 func VerifC01() {
